@@ -215,6 +215,8 @@ pub fn signed_flag(m: &Model, ctx: &mut Ctx, rule: &str) {
         }
     }
     ctx.floor(&format!("{}/integer-sites", rule), sites, 2);
+    // the component formatter decides the flag from the kind of the component's type: evaluated per kind
+    crate::rules::c05::member_annotations(m, ctx, rule, "signed");
 }
 
 pub fn run(m: &Model, ctx: &mut Ctx) {
